@@ -8,7 +8,7 @@ WT=/tmp/wt/confirm
 export CARGO_TARGET_DIR=/tmp/tgt-scratch CARGO_NET_OFFLINE=true
 [ -d $WT ] || git -C /repo worktree add --detach $WT HEAD -q
 cd $WT && git checkout -q -- . && git clean -fdq
-PROP=${ID%r2}; PFX=""; [ "$PROP" != "$ID" ] && PFX="r2"
+PROP=${ID%r[0-9]}; PFX=""; [ "$PROP" != "$ID" ] && PFX="${ID#$PROP}"
 DST=/verif/seeded/$PROP/$PFX$X; mkdir -p $DST
 cp $SRC/$X.patch.diff $DST/patch.diff; cp $SRC/$X.demo.diff $DST/demo.diff; cp $SRC/$X.meta.json $DST/meta.json
 CMD=$(python3 - <<PY
